@@ -456,12 +456,20 @@ def build(repo=None):
                         e.oblige(s2, "C08:leaf-loop-returns-False-exactly-at-the-first-non-matching-leaf", z3.And(z3.Not(o2.val.t), z3.Not(AllAcc(k + 1))) if ok else z3.BoolVal(False))
                         s3 = s2.fork(z3.Not(AllAcc(nleaves)), "leaf-loop:reject")
                         outs.append((s3, o2))
+                    elif o2.kind == "break":
+                        # leaves the loop early (skipping any `else`): only at the first non-matching leaf; what is returned afterwards is judged at the exit
+                        e.oblige(s2, "C08:leaf-loop-returns-False-exactly-at-the-first-non-matching-leaf", z3.Not(AllAcc(k + 1)))
+                        s3 = s2.fork(z3.Not(AllAcc(nleaves)), "leaf-loop:reject")
+                        outs.append((s3, NORMAL))
                     else:
                         outs.append((s2, o2))
                 s4 = s0.clone()
                 s4.pc += [AllAcc(nleaves)]
                 s4.path.append("leaf-loop:all-matched")
-                outs.append((s4, NORMAL))
+                if node.orelse:
+                    outs.extend(e.run(node.orelse, s4))
+                else:
+                    outs.append((s4, NORMAL))
                 return outs
 
             # ---- the pieces loop (composite structures)
